@@ -113,6 +113,17 @@ def gen_direct(parts, variant=None):
             if t["job"] not in ld:
                 ld[t["job"]] = ({rng.choice(res_names): rng.randint(1, 2)}, rng.choice([0, 1, 3])) if rng.random() < 0.5 else None
             t["loading"] = ld[t["job"]]
+    lrng = random.Random(seed_int("direct-loading2", *parts, *([variant] if variant else [])))
+    for g in graphs:
+        ld2 = {}
+        for t in g["tasks"]:
+            if t["job"] not in ld2:
+                ld2[t["job"]] = None
+                if t.get("loading") and lrng.random() < 0.6:
+                    (req, rt) = t["loading"]
+                    n = next(iter(req))
+                    ld2[t["job"]] = ({n: req[n] + 1}, max(0, rt - 1))  # more memory, loads faster
+            t["loading2"] = ld2[t["job"]]
     policy["pin_all"] = policy["pin_worker"] and rng.random() < 0.6
     if variant == "planner":
         policy["pin_worker"] = policy["pin_all"] = True
@@ -444,6 +455,30 @@ def _install():
     wrap(wk.Worker, "evict_profile", after=evict_after)
 
     @active
+    def applied_load_check(ctx, ret, self, event):
+        # decision recorded at the boundary: once a LOAD_WORK_PROFILE decision is applied, the profile holds on that worker
+        # exactly what the decided loading strategy demands
+        if event.event_type.name != "LOAD_PROFILE" or event.placement is None or event.placement.worker_id is None:
+            return
+        pl = event.placement
+        pool = self._worker_pools.get_worker_pool(pl.worker_pool_id)
+        w = next((x for x in pool.workers if x.id == pl.worker_id), None) if pool is not None else None
+        if w is None:
+            return
+        ctx.count("applied_profile_loads_judged")
+        want, got = {}, {}
+        for res, q in pl.loading_strategy.resources.resources:
+            if q:
+                want[res.name] = want.get(res.name, 0) + q
+        for res, q in w.resources.get_allocated_resources(pl.work_profile):
+            if q:
+                got[res.name] = got.get(res.name, 0) + q
+        if got != want:
+            ctx.violate("C01", "profile_holds_other_than_its_loading_strategy",
+                        f"t={ctx.clock}: {pl.work_profile.name} loaded on {w.name} with a strategy that demands {want}; the ledger holds {got} for it")
+    wrap(Sim, "_Simulator__handle_event", after=applied_load_check)
+
+    @active
     def profile_tables_check(ctx, ret, self, event):
         # invariant at a hook: every profile a live worker knows (loading or loaded) holds the resources of its loading
         # strategy, i.e. the harness saw its load_profile() return
@@ -573,6 +608,42 @@ def _final_checks(ctx, world, tasks_by_key, timeout):
             ctx.violate("C05", "ended_with_work_remaining", f"ended at {ctx.end_time} < timeout {timeout} with {left[:6]}")
 
 
+def _release_rows_check(ctx, rows, tasks_by_key):
+    """C08: every TASK_RELEASE row carries the task's own name, timestamp, graph, deadline, the time of the release and the
+    runtime and resources of ITS slowest strategy (harness' own description of the task)."""
+    by_id = {t.id: (k, t) for k, t in tasks_by_key.items()}
+    for row in rows:
+        p = row.split(",")
+        if len(p) < 10 or p[1] != "TASK_RELEASE":
+            continue
+        ctx.count("release_rows_judged")
+        ent = by_id.get(p[7])
+        if ent is None:
+            ctx.violate("C08", "release_row_unknown_task", row[:200])
+            continue
+        k, t = ent
+        spec = ctx.task_spec[k]
+        r = ctx.by_key.get(k)
+        name = f"{k[1]}@{k[2]} of {k[0]}"
+        if p[2] != k[1] or p[3] != str(k[2]) or p[8] != k[0]:
+            ctx.violate("C08", "release_row_identity", f"{name}: row says {p[2]}, {p[3]}, {p[8]}")
+        if r is not None and r["released"] is not None and (int(p[0]) != r["released"] or int(p[5]) != r["released"]):
+            ctx.violate("C08", "release_row_time", f"{name}: released at {r['released']}, row time {p[0]} release column {p[5]}")
+        if int(p[6]) != spec["deadline"]:
+            ctx.violate("C08", "release_row_deadline", f"{name}: deadline {spec['deadline']}, row says {p[6]}")
+        slow = max(rt for _, rt in spec["strategies"])
+        if int(p[9]) != slow:
+            ctx.violate("C08", "release_row_runtime", f"{name}: slowest strategy runs {slow}, row says {p[9]}")
+        slowest = [req for req, rt in spec["strategies"] if rt == slow]
+        if len(slowest) == 1:
+            got = {}
+            for i in range(10, len(p) - 2, 3):
+                got[p[i]] = got.get(p[i], 0) + int(p[i + 2])
+            ctx.count("release_rows_resources_judged")
+            if got != {n: q for n, q in slowest[0].items() if q}:
+                ctx.violate("C08", "release_row_resources", f"{name}: slowest strategy needs {slowest[0]}, row says {got} ({','.join(p[10:])})")
+
+
 def _ancestors(ctx, k):
     seen, stack = set(), list(ctx.parents.get(k, ()))
     while stack:
@@ -684,6 +755,23 @@ def _make_chaos(policy, pools_desc):
                                                                             worker_pool_id=pool.id, worker_id=worker.id))
                         _CTX.profile_where[key] = None
                         _CTX.count("chaos_evictions")
+                        if rng.random() < 0.35:
+                            # ... and load it straight back at the same instant (what Clockwork does when the model it evicted
+                            # is the next it loads), with any of the profile's loading strategies that fits once it is evicted
+                            ls2 = rng.choice(list(prof.loading_strategies))
+                            held = sum(q for _, q in worker.resources.get_allocated_resources(prof)) if hasattr(worker.resources, "get_allocated_resources") else 0
+                            free_after = {}
+                            for res, q in ls2.resources.resources:
+                                free_after[res.name] = worker.resources.get_available_quantity(res)
+                            for res, q in worker.resources.get_allocated_resources(prof):
+                                if res.name in free_after:
+                                    free_after[res.name] += q
+                            if all(free_after.get(res.name, 0) >= q for res, q in ls2.resources.resources):
+                                out.append(Placement.create_load_profile_placement(work_profile=prof, placement_time=sim_time,
+                                                                                   worker_pool_id=pool.id, loading_strategy=ls2,
+                                                                                   worker_id=worker.id))
+                                _CTX.profile_where[key] = sim_time.time
+                                _CTX.count("chaos_reloads_in_place")
                     else:
                         ls = prof.loading_strategies.get_fastest_strategy()
                         # a load asked for 'now' is asked only when it fits now; one asked for later may find the worker full
@@ -873,6 +961,12 @@ def run_direct(world, wall_s=30, shadow=False, decision_hooks=()):
         q.addHandler(logging.NullHandler())
         q.propagate = False
         q.setLevel(logging.CRITICAL)
+    # C08: the trace rows are captured (not written anywhere) and the TASK_RELEASE rows judged against the harness' own
+    # description of each task after the run
+    csv_rows = []
+    cq = logging.getLogger("Simulator_CSV")
+    cq.setLevel(logging.DEBUG)
+    cq.addHandler(common.ListHandler(csv_rows))
     if not _INSTALLED:
         _install()
         _INSTALLED = True
@@ -907,13 +1001,15 @@ def run_direct(world, wall_s=30, shadow=False, decision_hooks=()):
                 lreq, lrt = t["loading"]
                 loading = wl.ExecutionStrategies(strategies=[wl.ExecutionStrategy(
                     resources=wl.Resources(resource_vector={wl.Resource(name=n, _id="any"): q for n, q in lreq.items()}, _logger=lg),
-                    batch_size=1, runtime=us(lrt))])
+                    batch_size=1, runtime=us(lrt)) for lreq, lrt in [t["loading"]] + ([t["loading2"]] if t.get("loading2") else [])])
             pkey = (g["name"], t["job"])
             if pkey not in ctx.profiles:
-                ctx.profiles[pkey] = wl.WorkProfile(name=f"{g['name']}_{t['job']}_profile", execution_strategies=strategies,
+                ctx.profiles[pkey] = wl.WorkProfile(name=f"stage_{t['job'][2:]}_profile", execution_strategies=strategies,
                                                     loading_strategies=loading)
+            # the name of a profile is not its identity: like the trace loaders (one profile name per stage name, reused by
+            # every application) the same name is given to the profiles of different graphs
             prof = ctx.profiles[pkey] if t.get("loading") else wl.WorkProfile(
-                name=f"{g['name']}_{t['job']}_profile", execution_strategies=strategies)
+                name=f"stage_{t['job'][2:]}_profile", execution_strategies=strategies)
             ctx.task_spec[(g["name"], t["job"], t["ts"])] = t
             objs[(t["job"], t["ts"])] = wl.Task(name=t["job"], task_graph=g["name"], job=wl.Job(name=t["job"], profile=prof),
                                                 deadline=us(t["deadline"]), timestamp=t["ts"], release_time=us(t["release"]), _logger=lg)
@@ -1027,4 +1123,5 @@ def run_direct(world, wall_s=30, shadow=False, decision_hooks=()):
         ctx.violate("C05", "no_simulator_end", "simulate() returned without handling SIMULATOR_END")
     if status in ("ended", "no_end_event"):
         _final_checks(ctx, world, all_tasks, world["timeout"])
+        _release_rows_check(ctx, csv_rows, all_tasks)
     return ctx
